@@ -517,7 +517,7 @@ fn uri_file_path(uri: &str) -> Option<Vec<u8>> {
     use std::os::unix::ffi::OsStrExt;
     lsx::tower_lsp::lsp_types::Url::parse(uri).ok().and_then(|u| u.to_file_path().ok()).map(|p| p.as_os_str().as_bytes().to_vec())
 }
-/// no component besides the root: file_dict_name is then the empty string (finding FC10a)
+/// no component besides the root: file_dict_name fails since 08b9da8 (it was the empty string before: FC10a), nothing is written
 fn empty_dict_name(fp: &Option<Vec<u8>>) -> bool {
     match fp {
         Some(p) => p.split(|c| *c == b'/').all(|seg| seg.is_empty() || seg == b"."),
@@ -1175,7 +1175,7 @@ fn monitored_run(rep: &mut Report, args: &Args, seed: u64, replaying: bool, smal
             }
             rep.count(match (&fp, empty_dict_name(&fp)) {
                 (None, _) => "file_dict_save:url-without-file-path(nothing written)",
-                (Some(_), true) => "file_dict_save:empty-name",
+                (Some(_), true) => "file_dict_save:file-path-without-component(nothing written)",
                 (Some(_), false) => "file_dict_save:named",
             });
         } else if ph.ends_with(".user") {
@@ -1192,39 +1192,20 @@ fn monitored_run(rep: &mut Report, args: &Args, seed: u64, replaying: bool, smal
         json!({"kind": "run", "seed": seed, "tier": args.tier, "sessions": n_sess, "lib": n_lib, "docs": n_docs, "phase": j.phase, "syscall": j.line,
                "during": ops.get(&j.phase).map(|o| o.describe.clone()).unwrap_or_default()})
     };
-    // FC10a (known finding): a document URI whose file path has no component (`file:///`) gives the EMPTY file-dictionary
-    // name; save_dict then creates `<fileDictPath>.tmp` next to the directory and fails to rename it onto `<fileDictPath>/`.
-    // Classified as narrowly as that: the command, the URI shape and exactly these two system calls.
-    let mut empty_name_tmp: BTreeSet<Vec<u8>> = BTreeSet::new();
     for j in &judged {
         if j.verdict != 0 {
             let cfg = cfgs.get(base_phase(&j.phase)).cloned().unwrap_or_else(MCfg::none);
             let op = ops.get(&j.phase);
-            let dir_tmp = tmp_sibling(&cfg.filedir);
-            let is_empty_name = j.phase.ends_with(".file")
-                && op.map_or(false, |o| empty_dict_name(&uri_file_path(&o.uri)))
-                && match &j.ev {
-                    Ev::Open(true, p) => *p == dir_tmp,
-                    Ev::Rename(a, b) => *a == dir_tmp && *b == cfg.filedir,
-                    _ => false,
-                };
-            let class = if is_empty_name {
-                empty_name_tmp.insert(dir_tmp.clone());
-                "stray-write:empty-file-dict-name".to_string()
-            } else {
-                verdict_class(j.verdict).to_string()
-            };
             rep.fail(
-                &class,
+                verdict_class(j.verdict),
                 format!(
-                    "phase {}{}: {}  [configured: user={} filedir={} stats={}]{}",
+                    "phase {}{}: {}  [configured: user={} filedir={} stats={}]",
                     j.phase,
                     op.map(|o| format!(" ({})", o.describe)).unwrap_or_default(),
                     j.line.chars().take(300).collect::<String>(),
                     show(&cfg.user),
                     show(&cfg.filedir),
-                    show(&cfg.stats),
-                    if is_empty_name { "  — the URI's file path has no component, the file-dictionary name is empty: save_dict writes `<fileDictPath>.tmp` NEXT TO the file-dictionary directory" } else { "" }
+                    show(&cfg.stats)
                 ),
                 input(j),
             );
@@ -1251,13 +1232,6 @@ fn monitored_run(rep: &mut Report, args: &Args, seed: u64, replaying: bool, smal
         let fb = f.as_bytes();
         if all_cfgs.iter().any(|c| path_allowed(c, fb)) {
             n_cfg_files += 1;
-        } else if empty_name_tmp.contains(fb) {
-            // left behind by the failed rename of FC10a (the system calls that created it were attributed above)
-            rep.fail(
-                "stray-file:empty-file-dict-name",
-                format!("file {f} exists after the run: `<fileDictPath>.tmp`, created next to the file-dictionary directory by HarperAddToFileDict on a URI with an empty file-dictionary name"),
-                json!({"kind": "run", "seed": seed, "tier": args.tier, "sessions": n_sess, "lib": n_lib, "docs": n_docs, "file": f}),
-            );
         } else {
             rep.fail("stray-file", format!("file {f} exists after the run and is no configured dictionary / statistics file"), json!({"kind": "run", "seed": seed, "tier": args.tier, "sessions": n_sess, "lib": n_lib, "docs": n_docs, "file": f}));
         }
